@@ -1,3 +1,259 @@
+import Cello.Table
+import CelloGen.Table
 import Driver.Common
-/- driver for engine `table` — stub, replaced when the engine is built -/
-def main (_args : List String) : IO Unit := IO.println "O not-implemented"
+import Std.Data.HashMap
+/- driver for engine `table` (C02).  Interprets the op file of harness/h_table.c on the model `Cello.Table.step`
+   (with the source-derived parameters of CelloGen/Table.lean) and prints the same `O` lines.
+   Besides: `M` lines whenever the model's own observation departs from the association-list specification or the
+   executable invariant fails on a model state (used when a proof obligation broke), `S` statistics. -/
+open Cello.Table RH
+
+structure K where
+  name : String
+  h : Nat
+deriving DecidableEq, Repr
+
+abbrev T := Tab K Int
+instance : Inhabited T := ⟨Tab.empty 0⟩
+
+def cfg : Cfg :=
+  { ge := CelloGen.Table.tieGe, growEmpty := CelloGen.Table.setGrowsEmpty,
+    ideal := idealSize CelloGen.Table.primes CelloGen.Table.loadNum CelloGen.Table.loadDen }
+
+def NT : Nat := 8
+def FULL : Nat := 200      -- tables up to this many slots are dumped whole after every op
+def WIN : Nat := 32
+def ITERMAX : Nat := 100
+
+def u64 (x : Int) : Nat := (x % 18446744073709551616).toNat
+
+def fnvP : UInt64 := 1099511628211
+def fnv0 : UInt64 := 1469598103934665603
+@[inline] def mix (c : UInt64) (x : Nat) : UInt64 := (c ^^^ UInt64.ofNat x) * fnvP
+
+def entryStr (i : Nat) (e : Entry K Int) : String := s!" {i}:{e.home + 1}:{e.key.name}:{e.val}"
+
+def checksum (t : T) : UInt64 := Id.run do
+  let mut c := fnv0
+  for h : i in [0:t.n] do
+    match t.slots[i]'(Membership.get_elem_helper h rfl) with
+    | none => pure ()
+    | some e => c := mix (mix (mix (mix c (i+1)) (e.home+1)) e.key.h) (u64 e.val)
+  return c
+
+/-- canonical dump: `nslots nitems |` then all slots (small table) or a window around `home` -/
+def dump (t : T) (key : Option K) (withCs : Bool) : String := Id.run do
+  let mut s := s!"{t.n} {t.nitems} |"
+  if t.n ≤ FULL then
+    for h : i in [0:t.n] do
+      match t.slots[i]'(Membership.get_elem_helper h rfl) with
+      | none => pure ()
+      | some e => s := s ++ entryStr i e
+  else
+    match key with
+    | none => pure ()
+    | some k =>
+      let start := (k.h % t.n + t.n - 4) % t.n
+      s := s ++ s!" w{start}"
+      for d in [0:WIN] do
+        let i := (start + d) % t.n
+        if h : i < t.n then
+          match t.slots[i] with
+          | none => pure ()
+          | some e => s := s ++ entryStr i e
+    if withCs then s := s ++ s!" | cs={checksum t}"
+  return s
+
+def itemsStr (l : List (K × Int)) : String := Id.run do
+  let mut c := fnv0
+  let mut s := ""
+  let mut cnt := 0
+  for (k, v) in l do
+    c := mix (mix c k.h) (u64 v)
+    if cnt < ITERMAX then s := s ++ s!" {k.name}:{v}"
+    cnt := cnt + 1
+  return s!"n={cnt} cs={c}{s}"
+
+/-- executable form of the invariant (`RH.Inv` + count) on a model state -/
+def invOk (t : T) : Bool := Id.run do
+  if t.n = 0 then return t.nitems = 0
+  let mut cnt := 0
+  let mut ok := true
+  for h : i in [0:t.n] do
+    have hi : i < t.n := Membership.get_elem_helper h rfl
+    match t.slots[i] with
+    | none => pure ()
+    | some e =>
+      cnt := cnt + 1
+      if e.home ≠ e.key.h % t.n then ok := false
+      let d := dist t.n i e.home
+      if d > 0 then
+        match t.slots[prev t.n i]'(prev_lt hi) with
+        | none => ok := false
+        | some e' => if d > dist t.n (prev t.n i) e'.home + 1 then ok := false
+  if cnt ≠ t.nitems ∨ cnt ≥ t.n then ok := false
+  if t.n ≤ FULL then
+    let keys := (t.slots.toList.filterMap (·.map (·.key.name)))
+    if keys.eraseDups.length ≠ keys.length then ok := false
+  return ok
+
+def insertSorted (p : String × Int) : List (String × Int) → List (String × Int)
+  | [] => [p]
+  | q :: r => if p.1 < q.1 || (p.1 == q.1 && p.2 ≤ q.2) then p :: q :: r else q :: insertSorted p r
+def sortItems (l : List (K × Int)) : List (String × Int) := (l.map (fun p => (p.1.name, p.2))).foldr insertSorted []
+
+def obsEq : Obs K Int → Obs K Int → Bool
+  | .done, .done => true
+  | .raised a, .raised b => a = b
+  | .val a, .val b => a = b
+  | .bool a, .bool b => a = b
+  | .nat a, .nat b => a = b
+  | .items a, .items b => a.length = b.length && (a.length > 400 || sortItems a == sortItems b)
+  | .badOp, .badOp => true
+  | _, _ => false
+
+def obsStr : Obs K Int → String
+  | .done => "ok"
+  | .raised e => e.name
+  | .val v => toString v
+  | .bool b => if b then "1" else "0"
+  | .nat n => toString n
+  | .items l => itemsStr l
+  | .badOp => "bad-op"
+
+inductive Kind where | I | S | P deriving DecidableEq, Repr, Inhabited
+
+def parseKind : String → Option Kind
+  | "I" => some .I | "S" => some .S | "P" => some .P | _ => none
+
+def inInt64 (v : Int) : Bool := -9223372036854775808 ≤ v && v ≤ 9223372036854775807
+def inU64 (h : Nat) : Bool := h < 18446744073709551616
+
+def validName (s : String) : Bool := !s.isEmpty && s.all (fun c => c.isAlphanum || c = '_')
+
+/-- key token: kind I `<int>`; kinds S and P `<text>:<hash>` (P: text is the decimal id) -/
+def parseKey (kind : Kind) (tok : String) : Option K :=
+  match kind with
+  | .I => (tok.toInt?).bind (fun i => if tok.contains ':' || !inInt64 i then none else some ⟨toString i, u64 i⟩)
+  | .S =>
+    match tok.splitOn ":" with
+    | [a, b] => if validName a && a.length < 32 then (b.toNat?).bind (fun h => if inU64 h then some ⟨a, h⟩ else none) else none
+    | _ => none
+  | .P =>
+    match tok.splitOn ":" with
+    | [a, b] => match a.toInt?, b.toNat? with
+      | some i, some h => if inInt64 i && inU64 h then some ⟨toString i, h⟩ else none
+      | _, _ => none
+    | _ => none
+
+structure St where
+  ts : List T
+  kinds : Array Kind
+  spec : List (Spec K Int)
+  shadow : Bool
+  seen : Std.HashMap String Nat      -- probe/string key name (prefixed by kind) -> hash: one hash per key
+  halted : Bool := false
+  nOps : Nat := 0
+  nMism : Nat := 0
+  maxSlots : Nat := 0
+  nRehash : Nat := 0
+  nKeyErr : Nat := 0
+  nReplace : Nat := 0
+  nDisplace : Nat := 0
+
+
+def main (args : List String) : IO Unit := do
+  let lines ← Driver.inputLines args
+  let mut st : St := { ts := List.replicate NT (new cfg), kinds := Array.replicate NT .I,
+                       spec := List.replicate NT [], shadow := true, seen := {} }
+  let mut lineNo := 0
+  for l in lines do
+    lineNo := lineNo + 1
+    if Driver.isSkippable l then continue
+    if st.halted then continue
+    let w := Driver.words l
+    -- `ideal a b`: Table_Ideal_Size on a range
+    if let ["ideal", a, b] := w then
+      match a.toNat?, b.toNat? with
+      | some a, some b =>
+        if a ≤ b ∧ b - a ≤ 2000000 then
+          let mut c := fnv0
+          for n in [a:b] do c := mix c (cfg.ideal n)
+          IO.println s!"O ideal {a} {b} first={cfg.ideal a} cs={c}"
+        else IO.println "O bad-op"
+      | _, _ => IO.println "O bad-op"
+      continue
+    -- parse into an Op + the key (for the dump window) + op name
+    let tIdx? : Option Nat := match w with
+      | _ :: t :: _ => t.toNat?
+      | _ => none
+    let some t := tIdx? | IO.println "O bad-op"; continue
+    if t ≥ NT then IO.println "O bad-op"; continue
+    let kind := st.kinds[t]!
+    let parsed : Option (Op K Int × Option K × String × Bool) := match w with
+      | ["new", _, k] => (parseKind k).map (fun _ => (.new t, none, "new", true))
+      | ["set", _, k, v] => match parseKey kind k, v.toInt? with
+        | some k, some v => if inInt64 v then some (.set t k v, some k, "set", false) else none
+        | _, _ => none
+      | ["rem", _, k] => (parseKey kind k).map (fun k => (.rem t k, some k, "rem", false))
+      | ["get", _, k] => (parseKey kind k).map (fun k => (.get t k, some k, "get", false))
+      | ["mem", _, k] => (parseKey kind k).map (fun k => (.mem t k, some k, "mem", false))
+      | ["len", _] => some (.len t, none, "len", false)
+      | ["iter", _] => some (.iter t, none, "iter", false)
+      | ["riter", _] => some (.riter t, none, "riter", false)
+      | ["check", _] => some (.len t, none, "check", true)
+      | ["resize", _, m] => (m.toNat?).bind (fun m => if m ≤ 4000000 then some (.resize t m, none, "resize", true) else none)
+      | ["assign", _, s] => (s.toNat?).bind (fun s => if s < NT then some (.assign t s, none, "assign", true) else none)
+      | ["copy", _, s] => (s.toNat?).bind (fun s => if s < NT then some (.copy t s, none, "copy", true) else none)
+      | _ => none
+    let some (op, key, name, forceCs) := parsed | IO.println "O bad-op"; continue
+    -- one hash per key name (what a hash *function* is)
+    if let some k := key then
+      let tag := (match kind with | .I => "I" | .S => "S" | .P => "P") ++ k.name
+      match st.seen[tag]? with
+      | some h => if h ≠ k.h then IO.println "O bad-op"; continue
+      | none => st := { st with seen := st.seen.insert tag k.h }
+    st := { st with nOps := st.nOps + 1 }
+    let before := st.ts[t]!
+    match step cfg K.h st.ts op with
+    | .error f =>
+      IO.println s!"O {name} {f.name}"
+      st := { st with halted := true }
+    | .ok (ts', o) =>
+      let after := ts'[t]!
+      let withCs := forceCs || after.n ≠ before.n
+      let line := match name with
+        | "new" | "set" | "assign" | "copy" => s!"O {name} | {dump after key withCs}"
+        | "rem" | "resize" => s!"O {name} {obsStr o} | {dump after key withCs}"
+        | "check" => s!"O check {after.n} {after.nitems} cs={checksum after}"
+        | _ => s!"O {name} {obsStr o}"
+      IO.println line
+      -- kinds follow the source on assign/copy; `new` sets the kind
+      let kinds' := match w with
+        | ["new", _, k] => st.kinds.set! t ((parseKind k).getD .I)
+        | ["assign", _, s] | ["copy", _, s] => st.kinds.set! t (st.kinds[s.toNat!]!)
+        | _ => st.kinds
+      -- statistics
+      let rehashed := after.n ≠ before.n
+      let keyErr := match o with | .raised .KeyError => true | _ => false
+      let replaced := name == "set" && after.nitems == before.nitems && !rehashed
+      st := { st with ts := ts', kinds := kinds', maxSlots := max st.maxSlots after.n,
+                      nRehash := st.nRehash + (if rehashed then 1 else 0),
+                      nKeyErr := st.nKeyErr + (if keyErr then 1 else 0),
+                      nReplace := st.nReplace + (if replaced then 1 else 0) }
+      -- shadow specification + executable invariant (model self-check)
+      if st.shadow then
+        if after.nitems > 1500 then st := { st with shadow := false }
+        else
+          let selfAssign := match op with | .assign d s => d == s | _ => false
+          let (spec', so) := specStep st.spec op
+          let spec' := if selfAssign then spec'.set t [] else spec'    -- known finding: assign(t, t) empties t
+          st := { st with spec := spec' }
+          let specLen := (spec'[t]!).length
+          if !(obsEq o so) || after.nitems ≠ specLen then
+            IO.println s!"M line={lineNo} op={name} model={obsStr o} len={after.nitems} spec={obsStr so} len={specLen}"
+            st := { st with nMism := st.nMism + 1 }
+          if !(invOk after) then
+            IO.println s!"M line={lineNo} op={name} invariant-broken {dump after key false}"
+            st := { st with nMism := st.nMism + 1 }
+  IO.println s!"S ops={st.nOps} maxslots={st.maxSlots} rehashes={st.nRehash} keyerrors={st.nKeyErr} replaces={st.nReplace} model-mismatches={st.nMism} shadow={st.shadow}"
